@@ -67,6 +67,67 @@ access(all) contract Base {
         emit Made(id: v, tag: "r")
         return <- create R(v)
     }
+    // composites with several (direct and inherited) interface conformances whose conditions are ORDER SENSITIVE:
+    // every interface emits an event from its pre-condition of the same function and has its own failing bound,
+    // so the order in which the conformances are applied is visible in the event sequence and in the message
+    // of the first failing condition
+    access(all) event Cond(tag: String)
+    access(all) struct interface C1 {
+        access(all) fun chk(_ n: Int): Int {
+            pre {
+                emit Cond(tag: "C1")
+                n > 0: "C1 failed"
+            }
+        }
+    }
+    access(all) struct interface C2 {
+        access(all) fun chk(_ n: Int): Int {
+            pre {
+                emit Cond(tag: "C2")
+                n > 1: "C2 failed"
+            }
+            post {
+                emit Cond(tag: "C2 post")
+            }
+        }
+    }
+    access(all) struct interface C3: C1 {
+        access(all) fun chk(_ n: Int): Int {
+            pre {
+                emit Cond(tag: "C3")
+                n > 2: "C3 failed"
+            }
+        }
+    }
+    access(all) struct Multi: C1, C2 {
+        init() {}
+        access(all) fun chk(_ n: Int): Int { return n + 1 }
+    }
+    access(all) struct Inh: C3, C2 {
+        init() {}
+        access(all) fun chk(_ n: Int): Int { return n + 2 }
+    }
+    access(all) resource interface RC1 {
+        access(all) fun touch(_ n: Int) {
+            pre { emit Cond(tag: "RC1") }
+            post { emit Cond(tag: "RC1 post") }
+        }
+    }
+    access(all) resource interface RC2 {
+        access(all) fun touch(_ n: Int) {
+            pre {
+                emit Cond(tag: "RC2")
+                n >= 0: "RC2 failed"
+            }
+        }
+    }
+    access(all) resource MR: HasVal, RC1, RC2 {
+        access(all) var v: Int
+        init() { self.v = 0 }
+        access(all) view fun val(): Int { return self.v }
+        access(all) fun touch(_ n: Int) { self.v = self.v + n }
+    }
+    access(all) fun makeMR(): @MR { return <- create MR() }
     access(all) fun sumRange(_ a: Int, _ b: Int): Int {
         var s = 0
         for i in InclusiveRange(a, b) { s = s + i }
@@ -170,7 +231,13 @@ var typeExprs = []string{
 func snippet(r *Rng, n int) (string, string) {
 	a, b := r.Intn(12), 1+r.Intn(9)
 	v := fmt.Sprintf("v%d", n)
-	switch r.Intn(30) {
+	switch r.Intn(36) {
+	case 30, 31, 32:
+		return fmt.Sprintf("out.append(Base.Multi().chk(%d).toString())\n out.append(Base.Inh().chk(%d).toString())", 2+r.Intn(3), 3+r.Intn(3)), "conformance-order"
+	case 33:
+		return fmt.Sprintf("out.append(Base.%s().chk(%d).toString())", Pick(r, []string{"Multi", "Inh"}), r.Intn(3)), "conformance-order(maybe-fails)"
+	case 34, 35:
+		return fmt.Sprintf("let %s <- Base.makeMR()\n %s.touch(%d)\n out.append(%s.val().toString())\n destroy %s", v, v, a, v, v), "conformance-order-resource"
 	case 0:
 		return fmt.Sprintf("out.append(Base.sumRange(%d, %d).toString())", a, a+b), "sumRange"
 	case 1:
